@@ -43,7 +43,8 @@ def cases(tier, seed):
         for n in NS:
             for off in OFFSETS:
                 for band in BANDS:
-                    out.append({"cls": cls, "N": n, "offset": off, "band": band, "bound": 1 if tier == "quick" else 2})
+                    # pairs of draws only for the short grids (the number of draws grows with N x uniqueness)
+                    out.append({"cls": cls, "N": n, "offset": off, "band": band, "bound": 2 if (tier != "quick" and n <= 17) else 1})
     return out
 
 
